@@ -4407,7 +4407,11 @@ class Parser:
                         continue
                 break
 
-        if self.SUPPORTS_IMPLICIT_UNNEST and this and this.args.get("from_"):
+        if (
+            self.SUPPORTS_IMPLICIT_UNNEST
+            and this
+            and isinstance(this.args.get("from_"), exp.From)
+        ):
             this = self._implicit_unnests_to_explicit(this)
 
         return this
